@@ -51,7 +51,7 @@ SK_SAMPLE = 1500   # thorough tier: this many generated cases also go through th
 
 def run(tier, seed, replay=None):
     """thorough tier (or VERIF_C12_SK=1): build the real `sk` binary (release profile: a debug build of the
-    binary panics in clap's debug assertions) into harness/target-sk and let the harness call it."""
+    binary panics in clap's debug assertions) into /repo/target/release and let the harness call it."""
     from vlib import core
     want_binary = tier == "thorough" or bool(os.environ.get("VERIF_C12_SK"))
     if replay:
@@ -61,7 +61,7 @@ def run(tier, seed, replay=None):
         except Exception:
             pass
     if want_binary:
-        tdir = os.path.join(core.HARNESS, "target-sk")
+        tdir = os.path.join(core.REPO, "target")     # shared with C06 / the CLI samplers (/repo/target is git-ignored there)
         with core.Lock("cargo"):
             rc, out = core.sh(["cargo", "build", "--release", "--offline", "--bin", "sk", "--manifest-path",
                                os.path.join(core.REPO, "Cargo.toml"), "--target-dir", tdir])
